@@ -4,6 +4,7 @@
 package main
 
 import (
+	"bufio"
 	"bytes"
 	"encoding/base64"
 	"encoding/binary"
@@ -467,6 +468,9 @@ func runFile(scratch string, lines [][]byte, v2 bool, serial, preSerial uint32, 
 	o := newOracles()
 	o.addNet(net.IPv4zero.To16(), 96)
 	text := joinLines(lines)
+	if strings.Contains(class, "noeol") {
+		text = bytes.TrimSuffix(text, []byte("\n")) // the last line has no newline
+	}
 	// the preprocessor as cmd/dnsrocks-preproc configures it
 	var pre bytes.Buffer
 	func() {
@@ -485,11 +489,11 @@ func runFile(scratch string, lines [][]byte, v2 bool, serial, preSerial uint32, 
 		}
 	}()
 	if fc.PreErr == "" {
-		for _, l := range bytes.Split(bytes.TrimSuffix(pre.Bytes(), []byte("\n")), []byte("\n")) {
-			if pre.Len() == 0 {
-				break
-			}
-			fc.Pre = append(fc.Pre, hlib.Ints(l))
+		// the written text read back the way every consumer reads it (bufio.ScanLines)
+		sc := bufio.NewScanner(bytes.NewReader(pre.Bytes()))
+		sc.Buffer(make([]byte, 1<<20), 1<<24)
+		for sc.Scan() {
+			fc.Pre = append(fc.Pre, hlib.Ints(append([]byte{}, sc.Bytes()...)))
 		}
 	}
 	// the accumulator's own records for the original lines (what compile appends)
